@@ -312,7 +312,7 @@ func genString(r *rng) string {
 		n := []int{31, 32, 33, 255, 256, 257}[r.intn(6)]
 		return strings.Repeat("x", n)
 	default:
-		if r.chance(1, 8) {
+		if r.chance(1, 150) {
 			st.StrClass["length boundary (65535,65536)"]++
 			return strings.Repeat("y", []int{65535, 65536}[r.intn(2)])
 		}
